@@ -303,6 +303,32 @@ func runC08(t *testing.T, tier string) int {
 		}
 	})
 
+	// (ii-b) white space: the lexer's white space is space, tab, CR, LF and nothing
+	// else; strings padded with other "space" characters, and blank strings, are not
+	// sentences - for the parser AND for the Create / Update call sites (which may
+	// pre-process the string before they validate it)
+	// (a leading byte-order mark is skipped by the lexer library: not pinned by the
+	// documentation, left out of the pads)
+	for _, base := range []string{`attributes:x`, `attributes.x="v"`, `NOT attributes:x`, `attributes:x AND attributes:y`} {
+		for _, pad := range []string{"\v", "\f", "\u0085", "\u00a0", "\u2028", "\u3000", "\u200b", "\x00"} {
+			for _, str := range []string{pad + base, base + pad, strings.Replace(base, ":", pad+":", 1), strings.Replace(base, " ", pad, 1)} {
+				if str == base {
+					continue
+				}
+				c08Compare(str, maps, sink, st)
+				atomic.AddInt64(&mutated, 1)
+				if r := filt.Recognise(str); !r.Accept && !r.DontCare {
+					rejectedForStore = append(rejectedForStore, str)
+				}
+			}
+		}
+	}
+	for _, blank := range []string{" ", "\t", "\n", "\r\n", " \t\n ", "\u00a0", "\v", "  "} {
+		c08Compare(blank, maps, sink, st)
+		atomic.AddInt64(&mutated, 1)
+		rejectedForStore = append(rejectedForStore, blank)
+	}
+
 	// (iii) all byte strings over a small alphabet: totality only, in worker
 	// subprocesses with a watchdog (a hang or stack overflow kills only the worker)
 	bytesTotal, bytesViol := c08Bytes(tier)
